@@ -2,6 +2,7 @@ import VermouthProofs.C14
 import VermouthProofs.C14_Groups
 import VermouthProofs.C14_Fix
 import VermouthProofs.C14_Loop
+import VermouthProofs.C14_Name
 import VermouthProofs.Iso
 /-!
 # C14 — every unrecognised atom is explained by a known modification or reported
@@ -554,6 +555,42 @@ theorem label_or_remove_flagged (m : Mol) (mods : List Modif) (given : List (Lis
     | none => rfl
     | some y => simp [hno y (List.mem_of_find?_eq_some hf)]
   simp [this, dedupNat]
+
+/-! ## renaming -/
+
+/-- `rename_spec`: applying one chosen placement `c` gives the atom matched on a PTM pattern node `ma`
+the canonical name — the `atomname` of the pattern node, or the `replace` entry for `atomname` when
+there is one — whatever it was called before; (`MAtom.WF`: attribute dictionaries have distinct keys;
+`(patoms c.2).Nodup`: a placement mentions an atom once, true of every injective placement). -/
+theorem rename_spec (mods : List Modif) (nIdxs : List Int) (atoms : List Atom) (c : Nat × Placement)
+    (hp : (patoms c.2).Nodup) (a q : Int) (hq : (a, q) ∈ c.2) (ma : MAtom)
+    (hma : (modAt mods c.1).atom? q = some ma) (hptm : ma.ptm = true) (nm : Option String)
+    (hname : nameOf ma.attrs = some nm) (hwf : ma.WF) (b : Atom) (hb : atomAt atoms a = some b) :
+    ∃ b', atomAt (applyOne mods nIdxs atoms c) a = some b' ∧ nameOf b'.attrs = some (canonName ma nm) := by
+  have hl : c.2.lookup a = some q := Iso.lookup_of_mem (by unfold patoms at hp; exact hp) hq
+  have h := attrs_applyOne mods nIdxs atoms c hp a
+  rw [hl] at h
+  simp only [hma, hb, Option.map_some] at h
+  cases hres : atomAt (applyOne mods nIdxs atoms c) a with
+  | none => rw [hres] at h; cases h
+  | some b' =>
+    rw [hres] at h
+    simp only [Option.map_some, Option.some.injEq] at h
+    exact ⟨b', rfl, by rw [h]; exact applyPair_name ma b hptm nm hname hwf⟩
+
+/-- ... and leaves the attributes of every atom outside the placement alone -/
+theorem rename_frame (mods : List Modif) (nIdxs : List Int) (atoms : List Atom) (c : Nat × Placement)
+    (hp : (patoms c.2).Nodup) (a : Int) (ha : a ∉ patoms c.2) :
+    (atomAt (applyOne mods nIdxs atoms c) a).map (·.attrs) = (atomAt atoms a).map (·.attrs) := by
+  have h := attrs_applyOne mods nIdxs atoms c hp a
+  have hl : c.2.lookup a = none := by
+    rw [List.lookup_eq_none_iff]
+    intro y hy
+    simp only [bne_iff_ne, ne_eq]
+    intro heq
+    exact ha (List.mem_map.2 ⟨y, hy, heq.symm⟩)
+  rw [hl] at h
+  exact h
 
 /-! ## witnesses -/
 
